@@ -11,7 +11,7 @@ VERIF = os.path.dirname(HERE)
 KANI = os.path.join(VERIF, 'kani')
 
 HARNESSES = {
-    'C04': ['c04_float_max_order', 'c04_float_min_order', 'c04_float_compare', 'c04_float_divide_guard', 'c04_float_from'],
+    'C04': ['c04_float_max_order', 'c04_float_min_order', 'c04_float_compare', 'c04_float_divide_guard', 'c04_float_from', 'l5_f32_comparison_duality'],
     'C13': ['l1_active_bits', 'l2_normal_new'],
     'C20': ['l4_f32_constants'],
     'C08': ['c08_pushtype_equals_scalar'],
@@ -26,6 +26,7 @@ HARNESSES = {
 WHAT = {
     'c04_float_max_order': 'FLOAT.MAX: result is one of the operands and >= both (no NaN); all f32 pairs',
     'c04_float_min_order': 'FLOAT.MIN: result is one of the operands and <= both (no NaN); all f32 pairs',
+    'l5_f32_comparison_duality': 'float fact L5 (axioms ax_f32_cmp_duality, ax_f32_eq_symmetric): a.partial_cmp(b) is the mirror image of b.partial_cmp(a), == is symmetric and is the ordering\'s Equal; all f32 pairs',
     'c04_float_compare': 'FLOAT.< > = equal the IEEE comparison of (second, top); all f32 pairs',
     'c04_float_divide_guard': 'FLOAT./: no result for a +0.0/-0.0 divisor, exactly one result otherwise; all f32 dividends, divisors in {+-0, 1, NaN, +-inf}',
     'c08_pushtype_equals_scalar': 'PushType::equals on Float/Int/Bool literals is exactly `==` of the values and false across kinds (assumed contract pt_eq); all operand values',
